@@ -298,7 +298,7 @@ def case_kernel_grad_simplex(**p):
   def g(x):
     with tf.GradientTape() as t:
       y = tf.reshape(layer(x), [-1])[0]
-    return t.gradient(y, layer.kernel)
+    return t.gradient(y, layer.kernel), y
   tr = Traced(g, [tf.TensorSpec([1, len(sizes)], tf.float32)], name='lattice-simplex.kernel_grad')
   done, mism = tr.validate(np.random.default_rng(0), n=2, gen=lambda rng, i, shp, t: rng.integers(1, 15, size=shp) / 8.0 + 0.03125,
                            var_shapes={layer.kernel.name: lambda r, t: core.dyadic(r, [n, 1], t)})
@@ -311,6 +311,12 @@ def case_kernel_grad_simplex(**p):
     bad = bool(np.min(gr) < -1e-5 or abs(float(np.sum(gr)) - 1.0) > 1e-5)
     return dict(reproduced=bad, detail=dict(x=xn.tolist(), kernel_gradient=gr.tolist()))
 
+  def rpf(m, x, K):
+    xn, kn = core.model_np(m, x), core.model_np(m, K)
+    gr, yv = tr.tf_run(xn, var_values={layer.kernel.ref(): kn})
+    d = abs(float(np.asarray(yv).reshape(-1)[0]) - float(np.sum(np.asarray(gr, dtype=np.float64).reshape(-1) * kn.reshape(-1))))
+    return dict(reproduced=bool(d > 1e-4 * max(1.0, float(np.max(np.abs(kn))))), detail=dict(x=xn.tolist(), abs_diff=d))
+
   def build(extra, leaf):
     c = sym.new_ctx()
     x = sym.symbolic('x', (1, len(sizes)))
@@ -318,9 +324,16 @@ def case_kernel_grad_simplex(**p):
     box = [z3.And(x[0, d] >= lo, x[0, d] <= sizes[d] - 1 + hi) for d in range(len(sizes))]
     # differentiable points only: not on a cell boundary, no ties between residuals (measure-zero set excluded)
     c.case_assumptions = box + list(extra)
-    (grads,) = tr.sym_run(x, var_values={layer.kernel.ref(): K})
+    grads, yv = tr.sym_run(x, var_values={layer.kernel.ref(): K})
     case.meta['ops'] = tr.ops_seen
     tag = '[leaf=%s]' % (leaf or 'root')
+    # the weights are those of the forward value: out == sum_v grad_v * kernel_v (the forward value itself is C02's subject)
+    acc = 0
+    for gv, kv in zip(grads.reshape(-1), K.reshape(-1)):
+      acc = sym.s_add(acc, sym.s_mul(gv, kv))
+    case.identity('output-is-kernel-gradient-times-kernel' + tag, [(np.asarray(yv, dtype=object).reshape(-1)[0], acc)], witness=dict(x=x, k=K),
+                  timeout=p.get('timeout', 60), sig=dict(query='kernel-grad-forward', layer='lattice-simplex'), required=False,
+                  inline_replay=lambda m, x=x, K=K: rpf(m, x, K))
     knames = set(str(v) for v in K.reshape(-1))
     occurs = any(sym.is_z(gv) and any(str(v) in knames for v in z3util.get_vars(gv)) for gv in grads.reshape(-1))
     case.record('kernel-gradient-independent-of-kernel' + tag, 'sat' if occurs else 'unsat', kind='structural', witness={}, replay=None,
